@@ -233,7 +233,15 @@ class Earley:
         x = tuple(x)
         c = self._chart.get(x)
         if c is None:
-            self._chart[x] = c = self._compute_chart(x)
+            # Extend from the longest cached prefix one token at a time; recursing
+            # on x[:-1] overflows the stack for contexts of a few hundred tokens.
+            k = len(x)
+            while k > 0 and x[:k] not in self._chart:
+                k -= 1
+            for n in range(k, len(x) + 1):
+                if x[:n] not in self._chart:
+                    self._chart[x[:n]] = self._compute_chart(x[:n])
+            c = self._chart[x]
         return c
 
     def _compute_chart(self, x):
